@@ -376,3 +376,11 @@ package manager
 //@       ((bitset(ti.features.MainFeatures, 7) || bitset(ti.features.MainFeatures, 4) || bitset(ti.features.MainFeatures, 5)) && inset(updatedStreams.mask, k)), \
 //@       inset(tin.Uncertain.mask, k))))
 //@   assert before call mapupdate#1: same_tag: tin.definition == ti.definition && same_slice(tin.Matches.mask, ti.Matches.mask)
+
+// start-up: the loaded index files are counted once, all together, for the service list
+//@ func New
+//@   prop C13
+//@   nosafety
+//@   noframe
+//@   assert before call (*Manager).lock#1: loaded: same_slice(arg1, mgr.indexes)
+//@   ensures once: implies(isnil(result1), ncalls("(*Manager).lock") == 1)
